@@ -49,6 +49,8 @@ def _defined(key, vals, ts) -> bool:
     s = [E.s64(v) if t == "int" else v for v, t in zip(vals, ts)]
     if key.endswith(("idiv_s", "imod_s", "idivmod_s", "idiv_u", "imod_u", "idivmod_u")):
         return vals[1] != 0
+    if key.endswith("iabs"):
+        return s[0] != -H      # (|INT_MIN| does not fit: the spec's unsigned reading gives 2^63, the installed emulator saturates to 2^63 - 1; outside C04's region either way)
     if key.endswith("is_to_u"):
         return s[0] >= 0
     if key.endswith("iu_to_s"):
